@@ -1084,6 +1084,12 @@ def check_property(pid, tier="quick", seed=0):
             if masked_tags:
                 undecided.append("unit %s: clause(s) %s failed in %s; the property's clauses %s in the same function(s) are not decided by this run" % (
                     v.unit, ", ".join(sorted(foreign)[:4]), ", ".join(sorted(set(lab for (_, _, lab) in masked_fns))[:3]), ", ".join(sorted(masked_tags)[:6])))
+            else:
+                # (c) the unit serves this property without carrying a clause of its own for it (its functions are what the property's
+                # clauses elsewhere ASSUME): a contract of the unit that this tree does not establish leaves the property undecided
+                # (seeded change C14g: exit 0 while ExpandedSelection::render failed its shape clause)
+                undecided.append("unit %s (serves %s): clause(s) %s failed in %s; what the property's clauses assume of these functions is not established on this tree" % (
+                    v.unit, pid, ", ".join(sorted(foreign)[:4]), ", ".join(sorted(set(lab for (_, _, lab) in masked_fns))[:3])))
         for t in mine:
             obligations.append((v.unit, t))
             if t in masked_tags:
